@@ -2,8 +2,14 @@
 
 use std::fmt::Debug;
 use std::io::ErrorKind;
-use std::net::{SocketAddr, SocketAddrV4, UdpSocket};
-use std::time::{Duration, Instant};
+use std::net::{SocketAddr, SocketAddrV4};
+#[cfg(not(mainline_verif))]
+use std::net::UdpSocket;
+use std::time::Duration;
+#[cfg(not(mainline_verif))]
+use std::time::Instant;
+#[cfg(mainline_verif)]
+use crate::verif::{Instant, UdpSocket};
 use tracing::{debug, trace, warn};
 
 use crate::common::{ErrorSpecific, Message, MessageType, RequestSpecific, ResponseSpecific};
